@@ -45,6 +45,7 @@ inductive Val
   | str (s : String)
   | bool (b : Bool)
   | none
+  | obj (k : String)                 -- an opaque Python object (object dtype), identified by a label
   | app (f : String) (a : Val)
   deriving DecidableEq, Repr, Inhabited
 
@@ -56,6 +57,7 @@ def Val.dtype : Val → DType
   | .str _ => .str
   | .bool _ => .bool
   | .none => .obj
+  | .obj _ => .obj
   | .app _ _ => .float
 
 /-- One raw sample: timestamp, value, KATCP status (ignored when the getter has no status). -/
@@ -140,12 +142,24 @@ def numericPath (knots : List (Rat × Val)) (dumps : List Rat) : Except Err (Lis
 
 /-! ## categorical branch (plain rule only, see header) -/
 
-def applyTransform (f : Option String) (v : Val) : Val :=
+/-- the two transforms the harness uses: numeric negation and `str.upper`; applied to a value of
+    another kind Python raises (TypeError / AttributeError) -/
+def applyTransform (f : Option String) (v : Val) : Except Err Val :=
   match f, v with
-  | some "neg", .num q => .num (-q)
-  | some "neg", .int i => .int (-i)
-  | some "up", .str s => .str s.toUpper
-  | _, v => v
+  | none, v => .ok v
+  | some "neg", .num q => .ok (.num (-q))
+  | some "neg", .int i => .ok (.int (-i))
+  | some "neg", .nan => .ok .nan
+  | some "up", .str s => .ok (.str s.toUpper)
+  | some _, _ => .error .type
+
+def transformKnots (f : Option String) : List (Rat × Val) → Except Err (List (Rat × Val))
+  | [] => .ok []
+  | k :: r =>
+    match applyTransform f k.2, transformKnots f r with
+    | .ok v, .ok r' => .ok ((k.1, v) :: r')
+    | .error e, _ => .error e
+    | _, .error e => .error e
 
 /-- value in force at the end `e` of a dump -/
 def catAt (knots : List (Rat × Val)) (init : Option Val) (e : Rat) : Val :=
@@ -162,12 +176,16 @@ def catAt (knots : List (Rat × Val)) (init : Option Val) (e : Rat) : Val :=
     before the end of the last dump (the code indexes an empty event array: C10's finding). -/
 def catPath (knots : List (Rat × Val)) (init : Option Val) (tf : Option String)
     (dumps : List Rat) (period : Rat) : Except Err (List Val) :=
-  let ks := knots.map fun k => (k.1, applyTransform tf k.2)
   match dumps.getLast? with
   | none => .error .index
   | some dl =>
-    if (ks.filter (fun k => k.1 ≤ dl + period / 2)).isEmpty then .error .index
-    else .ok (dumps.map fun d => catAt ks init (d + period / 2))
+    -- only the samples up to the end of the last dump are transformed
+    let upto := knots.filter (fun k => k.1 ≤ dl + period / 2)
+    if upto.isEmpty then .error .index
+    else
+      match transformKnots tf upto with
+      | .error e => .error e
+      | .ok ks => .ok (dumps.map fun d => catAt ks init (d + period / 2))
 
 /-! ## sensor properties -/
 
